@@ -11,6 +11,7 @@ mod keys;
 mod lj;
 mod stakedrive;
 mod swapdrive;
+mod universe;
 mod vm;
 mod wallet;
 mod world;
@@ -163,6 +164,14 @@ fn cmd_boundary(a: &Args) {
     println!("{}", json!({"records": n}));
 }
 
+fn cmd_universe(a: &Args) {
+    let mut out = Out::new(&a.s("out", "universe.ndjson"));
+    let fm: u128 = a.s("feemult", "3000").parse().unwrap();
+    universe::universe(&mut out, &a.s("tag", "universe"), a.u64("seed", 1), fm, a.u64("maxlen", 2) as usize);
+    let n = out.finish();
+    println!("{}", json!({"records": n}));
+}
+
 fn cmd_swap(a: &Args) {
     let mut out = Out::new(&a.s("out", "swap.ndjson"));
     let net = drive::net_of(&a.s("net", "custom02"));
@@ -198,6 +207,7 @@ fn main() {
         Some("codec") => cmd_codec(&a),
         Some("ledger") => cmd_ledger(&a),
         Some("swap") => cmd_swap(&a),
+        Some("universe") => cmd_universe(&a),
         Some("boundary") => cmd_boundary(&a),
         Some("dosc") => cmd_dosc(&a),
         Some("feemult") => cmd_feemult(&a),
